@@ -309,6 +309,10 @@ func parseContracts(src, pkgName, file string) ([]*Contract, map[string]*define,
 			lastAppend = func(s string) { c.Asserts[len(c.Asserts)-1].Cl.Text += " " + s }
 		default:
 			cur.Raw[word] = append(cur.Raw[word], rest)
+			if word == "cursor" {
+				// the clauses the directive expands to belong to the properties the block is tagged for
+				cur.Raw["cursor.tag"] = []string{curTag}
+			}
 			c, w := cur, word
 			lastAppend = func(s string) { c.Raw[w][len(c.Raw[w])-1] += " " + s }
 		}
@@ -381,7 +385,7 @@ func parseContracts(src, pkgName, file string) ([]*Contract, map[string]*define,
 var rawDirectives = map[string]bool{
 	"kind": true, "effect": true, "governs": true, "ungoverned": true, "denial": true, "assume_stable": true,
 	"record_writer": true, "stream_writer": true, "pure": true, "gate": true, "note": true,
-	"expect": true, "replay": true, "first_defer": true, "balance": true, "guarded_by": true, "cursor_flow": true, "once": true, "crash_atomic": true,
+	"expect": true, "replay": true, "first_defer": true, "balance": true, "guarded_by": true, "cursor_flow": true, "once": true, "cursor.tag": true, "crash_atomic": true,
 	"wire": true, "cursor": true, "split": true, "roundtrip": true, "anyname": true, "site": true,
 }
 
@@ -534,7 +538,11 @@ func expandCursor(c *Contract, spec string) error {
 	}
 	w, off := f[0], c.Params[0]+"."+f[1]
 	x, p, n, e := c.Params[0], c.Params[1], c.Results[0], c.Results[1]
-	add := func(dst *[]Clause, text string) { *dst = append(*dst, Clause{Text: text, Line: c.Line}) }
+	tag := ""
+	if t := c.Raw["cursor.tag"]; len(t) > 0 {
+		tag = t[0]
+	}
+	add := func(dst *[]Clause, text string) { *dst = append(*dst, Clause{Text: text, Line: c.Line, Tag: tag}) }
 	add(&c.Requires, fmt.Sprintf("%s != nil && %s >= 0", x, off))
 	if len(f) == 3 {
 		add(&c.Requires, fmt.Sprintf("%s(%s)", f[2], x))
